@@ -102,6 +102,11 @@ impl MemKv {
         g.fail_writes.push(at);
     }
 
+    /// Forget the injected failures that have not been consumed.
+    pub fn clear_fail_writes(&self) {
+        self.0.borrow_mut().fail_writes.clear();
+    }
+
     pub fn set_fail_all(&self, f: bool) {
         self.0.borrow_mut().fail_all = f;
     }
